@@ -213,10 +213,15 @@ def cli_part(chk):
                     cli.set_script(d, script)
                     p = cli.popen_rebench(["-D", "-s", sched, "c.yaml"], d)
                     t0 = time.time()
-                    while not os.path.exists(fifo + ".ready") and time.time() - t0 < 30 and p.poll() is None:
+                    def announced():
+                        try:
+                            return len(open(fifo + ".ready").read().split()) >= 3
+                        except OSError:
+                            return False
+                    while not announced() and time.time() - t0 < 30 and p.poll() is None:
                         time.sleep(0.01)
                     case = dict(config=raw, scheduler=sched, blocked_start=k + 1, of=nstarts, signal=sig.name)
-                    if not os.path.exists(fifo + ".ready"):
+                    if not announced():
                         p.kill()
                         chk.obligation_broken("harness", "blocking harness", "start %d never announced itself (rc %s)" % (k + 1, p.poll()))
                         return
